@@ -17,6 +17,7 @@ package main
 //   C11 M <hex sql> # <expected fields> # <observed fields | ERR hex(message)>
 //   fields: MK=<exec mode> MP=<partition cols> MO=<order cols> MR=<all rows 0/1> MS=<skip kind>,<symbol>
 //           MW=<within ns> MM=<measure aliases> MD=<define symbols> MU=<subset name:sym+sym> MT=<pattern symbols>
+//           MQ=<pattern tree with quantifier bounds, see c11_pattern.go>
 import (
 	"fmt"
 	"math/big"
@@ -166,35 +167,10 @@ func drawWithin(rng *RNG, form, u int) withinDraw {
 }
 
 type mrPattern struct {
-	lex  []lx
-	syms []string
-}
-
-func pat(spec string, syms ...string) mrPattern {
-	var l []lx
-	for _, w := range strings.Fields(spec) {
-		if strings.EqualFold(w, "PERMUTE") {
-			l = append(l, K(w))
-		} else {
-			l = append(l, V(w))
-		}
-	}
-	return mrPattern{l, syms}
-}
-
-var c11Patterns = []mrPattern{
-	pat("( A B + )", "A", "B"),
-	pat("( A B * C )", "A", "B", "C"),
-	pat("( A B + C ? )", "A", "B", "C"),
-	pat("( ( A | B ) C )", "A", "B", "C"),
-	pat("( A { 2 } B )", "A", "B"),
-	pat("( A B { 1 , 3 } C )", "A", "B", "C"),
-	pat("( A + B + )", "A", "B"),
-	pat("( PERMUTE ( A , B ) C )", "A", "B", "C"),
-	pat("( A * { - B - } C )", "A", "B", "C"),
-	pat("( A { - B - } C )", "A", "B", "C"), // an exclusion right after an unquantified variable (recorded finding)
-	pat("( Up Down + Flat_1 * )", "Up", "Down", "Flat_1"),
-	pat("( A ( B C ) { 2 , } D ? )", "A", "B", "C", "D"),
+	lex   []lx     // "(" ... ")"
+	syms  []string // the pattern variables in the order written
+	shape string   // the pattern tree as written (c11_pattern.go)
+	tag   string   // which quantifier form was forced (input distribution)
 }
 
 var mrCols = []string{"ts", "seq", "deviceId", "region", "`device id`", "`order`", "`within`", "v", "_k", "site.id"}
@@ -209,6 +185,7 @@ func bare(s string) string {
 type gMR struct {
 	lex []lx
 	exp []string
+	tag string
 }
 
 func hexList(xs []string) string {
@@ -223,8 +200,8 @@ func hexList(xs []string) string {
 }
 
 // genMR: one MATCH_RECOGNIZE statement with the given WITHIN clause.
-func genMR(rng *RNG, w withinDraw) gMR {
-	p := c11Patterns[rng.Intn(len(c11Patterns))]
+func genMR(rng *RNG, w withinDraw, i int) gMR {
+	p := genPattern(rng, i)
 	var l []lx
 	l = append(l, K("SELECT"), V("*"), K("FROM"), V(rng.Pick([]string{"stream", "s1", "events"})), K("MATCH_RECOGNIZE"), V("("))
 	// PARTITION BY
@@ -381,8 +358,8 @@ func genMR(rng *RNG, w withinDraw) gMR {
 		sk = hx(skipSym)
 	}
 	exp := []string{"MK=2", "MP=" + hexList(part), "MO=" + hexList(ord), "MR=" + b01(allRows), fmt.Sprintf("MS=%d,%s", skipKind, sk),
-		"MW=" + w.ns.String(), "MM=" + hexList(measures), "MD=" + hexList(defines), "MU=" + joinOrDash(subsets), "MT=" + hexList(p.syms)}
-	return gMR{l, exp}
+		"MW=" + w.ns.String(), "MM=" + hexList(measures), "MD=" + hexList(defines), "MU=" + joinOrDash(subsets), "MT=" + hexList(p.syms), "MQ=" + p.shape}
+	return gMR{l, exp, p.tag}
 }
 
 func joinOrDash(xs []string) string {
@@ -436,7 +413,7 @@ func projectMR(cfg *types.Config) string {
 		sk = hx(mr.SkipSymbol)
 	}
 	return strings.Join([]string{fmt.Sprintf("MK=%d", int(cfg.Mode)), "MP=" + hexList(mr.PartitionBy), "MO=" + hexList(ord), "MR=" + b01(mr.RowsPerMatch == types.RowsPerMatchAll),
-		fmt.Sprintf("MS=%d,%s", int(mr.Skip), sk), fmt.Sprintf("MW=%d", int64(mr.Within)), "MM=" + hexList(ms), "MD=" + hexList(ds), "MU=" + joinOrDash(us), "MT=" + hexList(ps)}, " ")
+		fmt.Sprintf("MS=%d,%s", int(mr.Skip), sk), fmt.Sprintf("MW=%d", int64(mr.Within)), "MM=" + hexList(ms), "MD=" + hexList(ds), "MU=" + joinOrDash(us), "MT=" + hexList(ps), "MQ=" + patShape(mr.Pattern)}, " ")
 }
 
 // c11WithinFamily writes the M lines.  Every form x every unit spelling is drawn at least once per run.
@@ -453,7 +430,7 @@ func c11WithinFamily(seed uint64, o *Out, tier string) {
 		form := forms[i%len(forms)]
 		w := drawWithin(rng, form, drawn[form]) // walks through all 30 / 8 unit spellings of each form
 		drawn[form]++
-		g := genMR(rng, w)
+		g := genMR(rng, w, i)
 		exp := strings.Join(g.exp, " ")
 		variants := []string{render(rng, g.lex, 0, 0), render(rng, g.lex, 1, 1), render(rng, g.lex, 2, 0)}
 		for k := 0; k < 3; k++ {
@@ -473,5 +450,6 @@ func c11WithinFamily(seed uint64, o *Out, tier string) {
 			o.Line("C11 M %s # %s # %s", hx(sql), exp, obs)
 		}
 		o.Count("mr_within_" + w.form)
+		o.Count("mr_pattern_" + g.tag)
 	}
 }
